@@ -107,6 +107,14 @@ class FMMetrics(Metrics):  # pylint: disable=too-many-instance-attributes
             _constraints_per_feature.append(cpf)
         return _constraints_per_feature
 
+    @staticmethod
+    def is_grouped_feature(feature: Feature) -> bool:
+        """A feature is grouped if the relation it belongs to is a group
+        (other relations of its parent do not matter)."""
+        return feature.parent is not None and any(
+            r.is_group() and feature in r.children for r in feature.parent.get_relations()
+        )
+
     def get_feature_ancestors(self, feature: Feature) -> list[Feature]:
         features = []
         parent = feature.get_parent()
@@ -347,7 +355,7 @@ class FMMetrics(Metrics):  # pylint: disable=too-many-instance-attributes
         _solitary_features = [
             f.name
             for f in self._features
-            if not f.is_root() and f.parent is not None and not f.parent.is_group()
+            if not f.is_root() and f.parent is not None and not self.is_grouped_feature(f)
         ]
         result = self.construct_result(
             name=name,
@@ -367,7 +375,7 @@ class FMMetrics(Metrics):  # pylint: disable=too-many-instance-attributes
         _grouped_features = [
             f.name
             for f in self._features
-            if not f.is_root() and f.parent is not None and f.parent.is_group()
+            if not f.is_root() and f.parent is not None and self.is_grouped_feature(f)
         ]
         result = self.construct_result(
             name=name,
